@@ -213,7 +213,41 @@ def gl2(prog, getfn):
                         errs.append("grow copies the entry of slot %s into slot %s and leaves the original in place: the key is "
                                     "then stored twice, and the stale copy can overwrite a newer value at the next growth"
                                     % (show(src[2][1])[:40], show(pt_[2][1])[:50]))
+    moved_ok = False
+    if not calls and not errs:
+        # entries moved whole into a fresh table that then replaces the old one: `new_tbl[f(e.hash, new_cap)] = Some(e)`
+        for g in bodies:
+            gt = g.terms
+            for (bb, pt, val, line) in gt.stores:
+                pt_, v_ = strip(pt), strip(val)
+                if not (mir.is_call(pt_, "index_mut") and not show(pt_[2][0]).endswith(".tbl") and "arg1." not in show(pt_[2][0])):
+                    continue
+                if not (v_[0] == "agg" and v_[3] == "Some" and len(v_[4]) == 1):
+                    continue
+                item = strip(v_[4][0])
+                if "next(" not in show(item):
+                    continue
+                idx = strip(pt_[2][1])
+                hashes = [x for x in mir.subterms(idx) if x[0] == "field" and x[2] == "hash" and strip(x[1]) == item]
+                ins_slot = {c.callee.name for c in ins.terms.calls if c.callee.local and c.callee.name not in ("grow", "new", "insert")}
+                my_slot = {x[1].name for x in [idx] + list(mir.subterms(idx)) if mir.is_call(x) and x[1].local}
+                if not hashes:
+                    errs.append("grow moves an entry to slot %s, which is not computed from the entry's own stored hash" % show(idx)[:50])
+                elif ins_slot and my_slot and not (my_slot & ins_slot):
+                    errs.append("grow places entries with %s but insert and get use %s" % (sorted(my_slot), sorted(ins_slot)))
+                else:
+                    # ... for the capacity the table will have: the value stored into self.cap
+                    newcap = [strip(v2) for g2 in bodies for (_, p2, v2, _) in g2.terms.stores
+                              if strip(p2)[0] == "field" and strip(p2)[2] == "cap" and "arg1" in show(strip(p2)[1])]
+                    slot_calls = [x for x in [idx] + list(mir.subterms(idx)) if mir.is_call(x) and x[1].local and len(x[2]) == 2]
+                    if newcap and slot_calls and strip(slot_calls[0][2][1]) != newcap[0]:
+                        errs.append("grow places the entries for capacity %s while the table's capacity becomes %s: get looks for them "
+                                    "at the slot of the new capacity" % (show(slot_calls[0][2][1])[:30], show(newcap[0])[:30]))
+                    else:
+                        moved_ok = True
     if errs:
+        pass
+    elif moved_ok:
         pass
     elif len(calls) != 1:
         errs.append("%sexpected one re-insert call in grow, found %d" % ("?" if not calls else "", len(calls)))
@@ -225,7 +259,8 @@ def gl2(prog, getfn):
             errs.append("grow re-inserts (%s) — must be (e.key, e.val, e.hash) of one element"
                         % ", ".join(show(x) for x in a))
     out.append(inst("GL", "%s:GL2:grow" % grow.npath, verdict_of(errs), grow, None,
-                    errtext(errs) if errs else "re-inserts (e.key, e.val, e.hash) of each surviving element"))
+                    errtext(errs) if errs else ("moves every surviving entry whole to the slot its stored hash selects in the new table"
+                                                if moved_ok else "re-inserts (e.key, e.val, e.hash) of each surviving element")))
     return out
 
 
